@@ -168,6 +168,38 @@ def parse_cfg(expr):
     return 'CFlag "?"'
 
 
+def split_top(inner):
+    parts, depth, cur = [], 0, ""
+    for ch in inner:
+        if ch in "([{":
+            depth += 1
+        elif ch in ")]}":
+            depth -= 1
+        if ch == "," and depth == 0:
+            parts.append(cur)
+            cur = ""
+        else:
+            cur += ch
+    if cur.strip():
+        parts.append(cur)
+    return parts
+
+
+def eval_cfg(expr, enabled):
+    """truth value of a cfg predicate under a set of enabled features (unknown flags: false)"""
+    expr = expr.strip()
+    m = re.fullmatch(r'feature\s*=\s*"([^"]*)"', expr)
+    if m:
+        return m.group(1) in enabled
+    m = re.fullmatch(r"(not|all|any)\s*\((.*)\)", expr, re.S)
+    if m:
+        sub = [eval_cfg(p, enabled) for p in split_top(m.group(2))]
+        if m.group(1) == "not":
+            return not sub[0]
+        return all(sub) if m.group(1) == "all" else any(sub)
+    return False
+
+
 PANICKY = re.compile(r"\b(?:assert|assert_eq|assert_ne|panic|unreachable|unimplemented)!|\.expect\s*\(|\.unwrap\s*\(\s*\)")
 
 
@@ -394,18 +426,47 @@ def item_attrs(s, start):
     return attrs
 
 
+def shape_of_attrs(text, s):
+    """the Deserialize shape that the (active) attribute text of an item denotes, or None"""
+    if re.search(r"Deserialize_repr", text):
+        return "repr"
+    if re.search(r"\bDeserialize\b", text):
+        t = re.search(r'serde\s*\(\s*try_from\s*=\s*"([^"]*)"', text)
+        if t:
+            ty = re.sub(r"\s+", "", t.group(1))
+            # a (private) type alias of the same file stands for its definition
+            for _ in range(4):
+                al = re.search(r"\btype\s+%s\s*=\s*([^;]+);" % re.escape(ty.split("::")[-1]), s)
+                if not al:
+                    break
+                ty = re.sub(r"\s+", "", al.group(1))
+            ty = re.sub(r"\b(?:crate|super|self)::", "", ty)
+            return "try_from:" + ty
+        if re.search(r'serde\s*\(\s*(?:from|remote|deserialize_with|with)\b', text):
+            return "unknown"
+        return "derive"
+    return None
+
+
+SERDE_CONFIGS = [["serde"], ["serde", "serde_repr"], ["std", "serde"], ["std", "serde", "serde_repr"]]
+HARNESS_CONFIG = ["std", "serde", "serde_repr"]
+
+
 def parse_serde_shapes(srcs):
-    """For each public type: how Deserialize is obtained, as far as the source text shows.
+    """For each public type and each feature configuration with serde enabled: how Deserialize is
+    obtained, as far as the source text shows.
        'derive'        a plain derive(Deserialize): fields are stored unvalidated
        'try_from:<T>'  derive with serde(try_from = "T") (type aliases of the file resolved)
        'repr'          serde_repr
        'custom'        a hand-written `impl Deserialize for <type>` somewhere in the crate
-       'unknown'       none of these was recognised (e.g. the item is generated by a macro)"""
-    shapes = []
+       'unknown'       none of these was recognised (e.g. the item is generated by a macro)
+       'none'          no Deserialize derive is active in that configuration
+    `cfg_attr(COND, ...)` attributes count only in the configurations in which COND holds.
+    Returns (shapes under the harness configuration, [(config, shapes)])."""
     alltext = "\n".join(srcs.values())
+    per_cfg = {tuple(c): [] for c in SERDE_CONFIGS}
     for f, kind, name in SERDE_TYPES:
         pretty = name.replace("$name", "newtype")
-        # the declaration: in its usual file, else anywhere in the crate
         cands = [srcs.get(f, "")] + [t for g, t in srcs.items() if g != f]
         m = None
         s = ""
@@ -416,33 +477,26 @@ def parse_serde_shapes(srcs):
                 break
         custom = re.search(r"\bimpl\s*<\s*'de[^>]*>\s*(?:[\w:]*::)?Deserialize\s*<\s*'de\s*>\s*for\s+(?:[\w:]*::)?%s\b"
                            % re.escape(name), alltext)
-        shape = "unknown"
+        conds = []   # (condition text or None, attribute text)
         if m:
-            text = " ".join(item_attrs(s, m.start()))
-            if re.search(r"Deserialize_repr", text):
-                shape = "repr"
-            elif re.search(r"\bDeserialize\b", text):
-                t = re.search(r'serde\s*\(\s*try_from\s*=\s*"([^"]*)"', text)
-                if t:
-                    ty = re.sub(r"\s+", "", t.group(1))
-                    # a (private) type alias of the same file stands for its definition
-                    for _ in range(4):
-                        al = re.search(r"\btype\s+%s\s*=\s*([^;]+);" % re.escape(ty.split("::")[-1]), s)
-                        if not al:
-                            break
-                        ty = re.sub(r"\s+", "", al.group(1))
-                    ty = re.sub(r"\b(?:crate|super|self)::", "", ty)
-                    shape = "try_from:" + ty
-                elif re.search(r'serde\s*\(\s*(?:from|remote|deserialize_with|with)\b', text):
-                    shape = "unknown"
+            for a in item_attrs(s, m.start()):
+                am = re.match(r"\s*cfg_attr\s*\(", a)
+                if am:
+                    inner = a[am.end():a.rstrip().rfind(")")]
+                    parts = split_top(inner)
+                    conds.append((parts[0], " ".join(parts[1:])))
                 else:
-                    shape = "derive"
-            elif custom:
-                shape = "custom"
-        elif custom:
-            shape = "custom"
-        shapes.append((pretty, shape))
-    return shapes
+                    conds.append((None, a))
+        for c in SERDE_CONFIGS:
+            if m:
+                text = " ".join(t for (cond, t) in conds if cond is None or eval_cfg(cond, c))
+                shape = shape_of_attrs(text, s)
+                if shape is None:
+                    shape = "custom" if custom else "none"
+            else:
+                shape = "custom" if custom else "unknown"
+            per_cfg[tuple(c)].append((pretty, shape))
+    return per_cfg[tuple(HARNESS_CONFIG)], [(list(c), per_cfg[tuple(c)]) for c in SERDE_CONFIGS]
 
 
 def coq_str(s):
@@ -509,7 +563,7 @@ def main():
     smt = [(a, int(b)) for a, b in dump["SMT"]]
     tct = [(a, int(b)) for a, b in dump["TCT"]]
     CURRENT[0] = "SerdeShapes"
-    shapes = parse_serde_shapes(srcs)
+    shapes, shapes_by_cfg = parse_serde_shapes(srcs)
 
     hdr = ["(* GENERATED by translator/gen_tables.py from /repo's current tree -- do not edit. *)",
            "From Coq Require Import NArith List String.",
@@ -568,9 +622,15 @@ def main():
     changed |= write_if_changed(os.path.join(gen, "EnumTables.v"), "\n".join(v))
 
     v = list(hdr)
-    v.append("(* how each public type obtains Deserialize *)")
+    v.append("(* how each public type obtains Deserialize (std + serde + serde_repr: the harness build) *)")
     v.append("Definition serde_shapes : list (string * string) :=\n  [%s]." % ";\n   ".join(
         "(%s, %s)" % (coq_str(a), coq_str(b)) for a, b in shapes))
+    v.append("")
+    v.append("(* the same in every feature configuration that enables serde: cfg_attr conditions evaluated *)")
+    v.append("Definition serde_shapes_by_cfg : list (list string * list (string * string)) :=\n  [%s]." % ";\n   ".join(
+        "([%s],\n    [%s])" % ("; ".join(coq_str(x) for x in c),
+                                ";\n     ".join("(%s, %s)" % (coq_str(a), coq_str(b)) for a, b in sh))
+        for c, sh in shapes_by_cfg))
     v.append("")
     changed |= write_if_changed(os.path.join(gen, "SerdeShapes.v"), "\n".join(v))
 
